@@ -25,17 +25,20 @@ YT == << "y", "_", "t", "o", "t", "a", "l" >>      \* y_total: contains y; LAG_y
 MY == << "m", "y" >>                               \* my: ends in y
 GAP == << "g", "a", "p" >>
 NoT(nms) == [i \in 1..Len(nms) |-> "none"]
-Sch(id, nms, grid, excls) == [id |-> id, names |-> nms, kinds |-> [i \in 1..Len(nms) |-> "solved"], tdep |-> NoT(nms), steptol |-> "none",
+Sch(id, nms, grid, excls) == [id |-> id, names |-> nms, kinds |-> [i \in 1..Len(nms) |-> "solved"], tdep |-> NoT(nms), steptol |-> "none", horizon |-> "many",
                               grid |-> grid, excls |-> excls]
 (* schemes with series whose equations mention the time axis *)
-SchT(id, nms, tds, grid, excls) == [id |-> id, names |-> nms, kinds |-> [i \in 1..Len(nms) |-> "solved"], tdep |-> tds, steptol |-> "none",
+SchT(id, nms, tds, grid, excls) == [id |-> id, names |-> nms, kinds |-> [i \in 1..Len(nms) |-> "solved"], tdep |-> tds, steptol |-> "none", horizon |-> "many",
                                     grid |-> grid, excls |-> excls]
 (* schemes in which the user has set the solver's own tolerance *)
 SchS(id, nms, st, grid, excls) == [id |-> id, names |-> nms, kinds |-> [i \in 1..Len(nms) |-> "solved"], tdep |-> NoT(nms),
-                                   steptol |-> st, grid |-> grid, excls |-> excls]
+                                   steptol |-> st, horizon |-> "many", grid |-> grid, excls |-> excls]
+(* schemes with a very short search horizon *)
+SchH(id, nms, hz, grid, excls) == [id |-> id, names |-> nms, kinds |-> [i \in 1..Len(nms) |-> "solved"], tdep |-> NoT(nms),
+                                   steptol |-> "none", horizon |-> hz, grid |-> grid, excls |-> excls]
 MC_Trend == { Cl("pL", "pL", "large"), Cl("nL", "nL", "large") }
 (* schemes with a decorative series: an affine function of the solved series before it (gap = x1 - target) *)
-SchK(id, nms, kds, grid, excls) == [id |-> id, names |-> nms, kinds |-> kds, tdep |-> NoT(nms), steptol |-> "none", grid |-> grid, excls |-> excls]
+SchK(id, nms, kds, grid, excls) == [id |-> id, names |-> nms, kinds |-> kds, tdep |-> NoT(nms), steptol |-> "none", horizon |-> "many", grid |-> grid, excls |-> excls]
 (* classes a solved series can end in and still pass the test, at a large level and at a small one, and one that fails *)
 MC_Pass == { Cl("pL", "pL", "rel_small"), Cl("nL", "nL", "rel_small"), Cl("pL", "pL", "small"),
              Cl("nL", "nL", "small"), Cl("pL", "pL", "zero"), Cl("pL", "pL", "large") }
@@ -54,7 +57,10 @@ MC_SchemesQuick == {
     SchT(9, << X1, X2 >>, << "none", "trend" >>,   << MC_Pass, MC_Trend >>, { {}, {X2} }),
     SchS(10, << X1 >>,     "coarser", << LooseOf(AllClasses) >>,                { {} }),
     SchS(11, << X1, X2 >>, "coarser", << LooseOf(MC_Pass), LooseOf(MC_Few) >>, { {}, {X2} }),
-    SchS(12, << X1 >>,     "finer",   << AllClasses >>,                         { {} }) }
+    SchS(12, << X1 >>,     "finer",   << AllClasses >>,                         { {} }),
+    SchH(13, << X1 >>,     "one", << AllClasses >>,      AtMostOne(<< X1 >>)),
+    SchH(14, << X1, X2 >>, "one", << MC_Pass, MC_Few >>, { {}, {X2} }),
+    SchH(15, << X1 >>,     "two", << AllClasses >>,      { {} }) }
 
 MC_SchemesThorough == {
     Sch(1, << X1, X2 >>, << AllClasses, AllClasses >>, AtMostOne(<< X1, X2 >>)),
@@ -64,7 +70,9 @@ MC_SchemesThorough == {
     SchT(5, << X1, X2 >>, << "settled", "settled" >>, << AllClasses, MC_Few >>,  { {}, {X2} }),
     SchT(6, << X1, X2 >>, << "trend", "none" >>,      << MC_Trend, AllClasses >>, { {}, {X1} }),
     SchS(7, << X1, X2 >>, "coarser", << LooseOf(AllClasses), LooseOf(MC_Few) >>, { {}, {X2} }),
-    SchS(8, << X1, X2 >>, "finer",   << AllClasses, MC_Few >>,                   { {} }) }
+    SchS(8, << X1, X2 >>, "finer",   << AllClasses, MC_Few >>,                   { {} }),
+    SchH(9,  << X1, X2 >>, "one", << AllClasses, MC_Few >>, AtMostOne(<< X1, X2 >>)),
+    SchH(10, << X1, X2 >>, "two", << AllClasses, MC_Few >>, { {}, {X1} }) }
 (* (never excluded: a variable that a non-excluded one is computed from - see c15.py, assumptions) *)
 
 MC_SchemesThree == {
@@ -72,7 +80,8 @@ MC_SchemesThree == {
     Sch(2, << Y, X1, YT >>,  << MC_Few, MC_Few3, MC_Few3 >>,    { {YT}, {Y}, {X1, YT} }),
     SchK(3, << X1, GAP, X2 >>, << "solved", "decorative", "solved" >>, << MC_Pass, MC_Few, MC_Few3 >>, { {}, {X2} }),
     SchT(4, << X1, X2, X3 >>, << "settled", "none", "trend" >>, << MC_Few, MC_Few3, MC_Trend >>, { {}, {X3} }),
-    SchS(5, << X1, X2, X3 >>, "coarser", << LooseOf(MC_Few), MC_Few3, LooseOf(MC_Few3) >>, { {} }) }
+    SchS(5, << X1, X2, X3 >>, "coarser", << LooseOf(MC_Few), MC_Few3, LooseOf(MC_Few3) >>, { {} }),
+    SchH(6, << X1, X2, X3 >>, "one", << MC_Few, MC_Few3, MC_Few3 >>, { {}, {X3} }) }
 
 MC_SchemesFull3 == {
     Sch(1, << X1, X2, X3 >>, << AllClasses, AllClasses, AllClasses >>, AtMostOne(<< X1, X2, X3 >>)),
@@ -82,7 +91,7 @@ MC_SchemesFull3 == {
 
 (* every maximal behaviour is printed once, as JSON, for the replay driver *)
 Emit == Terminal =>
-          PrintT(<< "BEH", ToJson([n |-> n, names |-> names, kinds |-> kinds, tdep |-> tdep, steptol |-> steptol, option |-> option, excluded |-> excluded,
+          PrintT(<< "BEH", ToJson([n |-> n, names |-> names, kinds |-> kinds, tdep |-> tdep, steptol |-> steptol, horizon |-> horizon, option |-> option, excluded |-> excluded,
                                    sid |-> sid, wf |-> wf, runres |-> runres,
                                    cls |-> cls, phase |-> phase, exc |-> exc]) >>)
 =============================================================================
